@@ -1,10 +1,13 @@
 package checks
 
 import (
+	"bytes"
+	"encoding/base64"
 	"encoding/json"
 	"fmt"
 	"math"
 	"math/big"
+	"strings"
 	"time"
 
 	sigtypes "github.com/chain4energy/c4e-chain/x/cfesignature/types"
@@ -95,7 +98,7 @@ func buildVestingWorld(r *kernel.Rng, o vestingWorldOpts) (*kernel.WorldSpec, *v
 			owner := spec.Clients[r.Intn(len(spec.Clients))]
 			dup := false
 			for _, avp := range vg.AccountVestingPools {
-				if avp.Owner == kernel.ActorBech(owner) {
+				if strings.EqualFold(avp.Owner, kernel.ActorBech(owner)) {
 					dup = true
 				}
 			}
@@ -103,6 +106,9 @@ func buildVestingWorld(r *kernel.Rng, o vestingWorldOpts) (*kernel.WorldSpec, *v
 				continue
 			}
 			avp := &vtypes.AccountVestingPools{Owner: kernel.ActorBech(owner)}
+			if r.Intn(10) == 0 {
+				avp.Owner = strings.ToUpper(avp.Owner) // the genesis file spells the owner in upper case (valid bech32)
+			}
 			np := r.Range(1, 3)
 			for k := 0; k < np; k++ {
 				w.PoolNames++
@@ -155,7 +161,11 @@ func buildVestingWorld(r *kernel.Rng, o vestingWorldOpts) (*kernel.WorldSpec, *v
 			spec.Balances = append(spec.Balances, kernel.BalSpec{Actor: name, Coins: bal.String()})
 			w.VestActors = append(w.VestActors, name)
 			if r.P(0.7) {
-				vg.VestingAccountTraces = append(vg.VestingAccountTraces, vtypes.VestingAccountTrace{Id: vg.VestingAccountTraceCount, Address: kernel.ActorBech(name), Genesis: r.P(0.7)})
+				taddr := kernel.ActorBech(name)
+				if r.Intn(10) == 0 {
+					taddr = strings.ToUpper(taddr)
+				}
+				vg.VestingAccountTraces = append(vg.VestingAccountTraces, vtypes.VestingAccountTrace{Id: vg.VestingAccountTraceCount, Address: taddr, Genesis: r.P(0.7)})
 				vg.VestingAccountTraceCount++
 			}
 			w.LockEnds = append(w.LockEnds, time.Unix(start, 0), time.Unix(end, 0))
@@ -169,6 +179,15 @@ func msgTx(signer string, msg sdk.Msg, route string) *kernel.Tx {
 	js, err := kernel.MsgToJSON(msg)
 	if err != nil {
 		return nil
+	}
+	// a message whose JSON form does not decode back to the same bytes (strings that are not valid UTF-8) is
+	// recorded in its binary encoding
+	if back, err := kernel.MsgFromJSON(js); err == nil {
+		b1, e1 := kernel.Enc().Marshaler.MarshalInterface(msg)
+		b2, e2 := kernel.Enc().Marshaler.MarshalInterface(back)
+		if e1 == nil && e2 == nil && !bytes.Equal(b1, b2) {
+			return &kernel.Tx{Signer: signer, Bin: []string{base64.StdEncoding.EncodeToString(b1)}, Route: route}
+		}
 	}
 	return &kernel.Tx{Signer: signer, Msgs: []json.RawMessage{js}, Route: route}
 }
@@ -236,6 +255,13 @@ func (w *vestingWorld) genCreatePool(r *kernel.Run, rng *kernel.Rng) *kernel.Tx 
 		name = fmt.Sprintf("p%d", rng.Range(1, w.PoolNames+1)) // possibly a duplicate
 	case 1:
 		name = "" // invalid
+	case 2:
+		// a name that is not valid UTF-8 (the wire format does not care; JSON does)
+		w.PoolNames++
+		name = fmt.Sprintf("p%d-\xff", w.PoolNames)
+		if rng.Bool() {
+			name = fmt.Sprintf("p%d-\xfe", w.PoolNames)
+		}
 	default:
 		w.PoolNames++
 		name = fmt.Sprintf("p%d", w.PoolNames)
@@ -272,7 +298,7 @@ func (w *vestingWorld) genCreatePool(r *kernel.Run, rng *kernel.Rng) *kernel.Tx 
 	if dur >= 0 && dur < 50*365*24*time.Hour {
 		w.LockEnds = append(w.LockEnds, r.Chain.Now.Add(dur)) // the cadence aims at these
 	}
-	return msgTx(owner, msg, w.route(rng))
+	return msgTx(owner, respell(rng, msg), w.route(rng))
 }
 
 func (w *vestingWorld) ownersWithPools(r *kernel.Run) []vtypes.AccountVestingPools {
@@ -318,7 +344,7 @@ func (w *vestingWorld) genSend(r *kernel.Run, rng *kernel.Rng) *kernel.Tx {
 	if freshName != "" {
 		w.VestActors = append(w.VestActors, freshName)
 	}
-	return msgTx(owner, msg, w.route(rng))
+	return msgTx(owner, respell(rng, msg), w.route(rng))
 }
 
 func (w *vestingWorld) genWithdraw(r *kernel.Run, rng *kernel.Rng) *kernel.Tx {
@@ -329,7 +355,7 @@ func (w *vestingWorld) genWithdraw(r *kernel.Run, rng *kernel.Rng) *kernel.Tx {
 			owner = a
 		}
 	}
-	return msgTx(owner, &vtypes.MsgWithdrawAllAvailable{Owner: kernel.ActorBech(owner)}, w.route(rng))
+	return msgTx(owner, respell(rng, &vtypes.MsgWithdrawAllAvailable{Owner: kernel.ActorBech(owner)}), w.route(rng))
 }
 
 func (w *vestingWorld) genCreateVestingAccount(r *kernel.Run, rng *kernel.Rng) *kernel.Tx {
@@ -374,7 +400,7 @@ func (w *vestingWorld) genCreateVestingAccount(r *kernel.Run, rng *kernel.Rng) *
 		w.VestActors = append(w.VestActors, freshName)
 		w.LockEnds = append(w.LockEnds, time.Unix(start, 0), time.Unix(end, 0))
 	}
-	return msgTx(from, msg, w.route(rng))
+	return msgTx(from, respell(rng, msg), w.route(rng))
 }
 
 // pickVestingActor returns an actor that currently is a continuous vesting account.
@@ -418,7 +444,7 @@ func (w *vestingWorld) genSplit(r *kernel.Run, rng *kernel.Rng) *kernel.Tx {
 	if freshName != "" {
 		w.VestActors = append(w.VestActors, freshName)
 	}
-	return msgTx(from, &vtypes.MsgSplitVesting{FromAddress: kernel.ActorBech(from), ToAddress: to, Amount: coins}, w.route(rng))
+	return msgTx(from, respell(rng, &vtypes.MsgSplitVesting{FromAddress: kernel.ActorBech(from), ToAddress: to, Amount: coins}), w.route(rng))
 }
 
 func (w *vestingWorld) genMove(r *kernel.Run, rng *kernel.Rng) *kernel.Tx {
@@ -431,7 +457,7 @@ func (w *vestingWorld) genMove(r *kernel.Run, rng *kernel.Rng) *kernel.Tx {
 		w.VestActors = append(w.VestActors, freshName)
 	}
 	if rng.Bool() {
-		return msgTx(from, &vtypes.MsgMoveAvailableVesting{FromAddress: kernel.ActorBech(from), ToAddress: to}, w.route(rng))
+		return msgTx(from, respell(rng, &vtypes.MsgMoveAvailableVesting{FromAddress: kernel.ActorBech(from), ToAddress: to}), w.route(rng))
 	}
 	denoms := []string{}
 	all := append([]string{BondDenom}, w.ExtraDenoms...)
@@ -450,7 +476,7 @@ func (w *vestingWorld) genMove(r *kernel.Run, rng *kernel.Rng) *kernel.Tx {
 			denoms = append(denoms, denoms[0])
 		}
 	}
-	return msgTx(from, &vtypes.MsgMoveAvailableVestingByDenoms{FromAddress: kernel.ActorBech(from), ToAddress: to, Denoms: denoms}, w.route(rng))
+	return msgTx(from, respell(rng, &vtypes.MsgMoveAvailableVestingByDenoms{FromAddress: kernel.ActorBech(from), ToAddress: to, Denoms: denoms}), w.route(rng))
 }
 
 // genDelegate: a vesting account (or client) delegates part of its balance (delegated vesting, C07/C17).
@@ -594,4 +620,51 @@ func (w *vestingWorld) genGovDenom(r *kernel.Run, rng *kernel.Rng) *kernel.Tx {
 		t.Note = "gov-denom-update"
 	}
 	return t
+}
+
+// respell: now and then one address field of a vesting message is written in the other valid spelling of the same
+// bech32 string (all upper case). It decodes to the same account and the signer is the same; only the string differs.
+func respell(rng *kernel.Rng, msg sdk.Msg) sdk.Msg {
+	if !rng.P(0.06) {
+		return msg
+	}
+	up := func(s *string) { *s = strings.ToUpper(*s) }
+	second := rng.Bool()
+	switch t := msg.(type) {
+	case *vtypes.MsgCreateVestingPool:
+		up(&t.Owner)
+	case *vtypes.MsgWithdrawAllAvailable:
+		up(&t.Owner)
+	case *vtypes.MsgSendToVestingAccount:
+		if second {
+			up(&t.ToAddress)
+		} else {
+			up(&t.Owner)
+		}
+	case *vtypes.MsgCreateVestingAccount:
+		if second {
+			up(&t.ToAddress)
+		} else {
+			up(&t.FromAddress)
+		}
+	case *vtypes.MsgSplitVesting:
+		if second {
+			up(&t.ToAddress)
+		} else {
+			up(&t.FromAddress)
+		}
+	case *vtypes.MsgMoveAvailableVesting:
+		if second {
+			up(&t.ToAddress)
+		} else {
+			up(&t.FromAddress)
+		}
+	case *vtypes.MsgMoveAvailableVestingByDenoms:
+		if second {
+			up(&t.ToAddress)
+		} else {
+			up(&t.FromAddress)
+		}
+	}
+	return msg
 }
